@@ -14,6 +14,15 @@ def start():
     shutil.rmtree(d, ignore_errors=True)
     os.makedirs(d, exist_ok=True)
     COVER['dir'] = d
+    # Go's coverage runtime writes the meta-data file once per binary; processes that start at the same moment race
+    # on its rename and complain on stderr.  One run of each instrumented binary alone, first, writes it.
+    env = {'PATH': '/usr/bin:/bin', 'GOCOVERDIR': d}
+    for exe, args in ((os.path.join(BUILD, 'impl_cover'), []), (os.path.join(BUILD, 'borno_cover'), ['/nonexistent.bn'])):
+        if os.path.exists(exe):
+            try:
+                subprocess.run([exe] + args, input=b'', capture_output=True, env=env, timeout=20)
+            except Exception:
+                pass
     return d
 
 def stop():
